@@ -36,6 +36,12 @@ CHECKS = {
    text="Exhaustive for 2 peers with one drop, simulation for 3 peers with up to 3 drops (quick: 2); each behaviour replayed with real State::encode/decode.", ref="§6 C21"),
  "C22": dict(cat="model_checking", tech="Sync.tla with set_read_only toggles: TLC action property ReadOnlyNeverApplies, invariant NoStuck after toggling back + exhaustive transition-coverage replay",
    text="All interleavings of toggles (either side, messages in flight, concurrent edits) for 1-2 changes and up to 2-3 toggles are replayed on the implementation; the read-only peer's applied set/queue are compared after every receive, and catch-up after switching back is the NoStuck invariant.", ref="§6 C22"),
+ "C06": dict(cat="model_checking", tech="TLA+ trace validation (TLC): Trace_Graph ErrorUnchanged predicates on rejected deliveries/merges (spec state before the call vs observation after), Trace_Seq on rejected transaction calls; TLC model checking of ChangeGraph.tla (ErrorKeepsApplied)",
+   text="Every failing call in the duplicate-sequence, invalid-call and boundary families must leave applied set, queue, in-transaction views unchanged and the document must still save and load. One deliberate deviation of the implementation (a DuplicateSeqNumber rejection prunes the rejected actor's queued branch) is a listed known finding; any other change across a failing call is still reported.", ref="§6 C06, §7 F9"),
+ "C28": dict(cat="model_checking", tech="TLA+ trace validation (TLC, Trace_Graph Rollback action): observation and save digest before = after, byte-identical follow-up change on rolled-back document vs. pre-transaction clone",
+   text="Rolled-back transactions (Transaction::rollback, transact with Err, AutoCommit::rollback) of 1-4 random calls on prior states with conflicts, queues and several actors.", ref="§6 C28"),
+ "C29": dict(cat="model_checking", tech="TLA+ trace validation (TLC): Trace_Interp (reads inside transaction_at(H) = Interp(ancestors(H)); document after commit = Interp(all applied)), Trace_Seq (calls act on the isolated view), Trace_Graph (deps = H, isolated actor rule)",
+   text="Programs with ~30% isolated transactions at random antichains with remote changes arriving in between.", ref="§6 C29", note="assumes as the other trace checks; AutoCommit::isolate/integrate are exercised through Automerge::transaction_at only (the same transaction_args path)"),
 }
 
 NA_REASON = "check not built yet in this session (framework under construction; see DESIGN.md §10 build order)"
